@@ -633,3 +633,20 @@ def slice_call_blocks(body, operand_or_local, regex, max_nodes=400):
                     if o.kind != "const":
                         work.append(o.place.local)
     return sorted(set(out))
+
+
+def strip_passthrough(e):
+    """Peel value-preserving wrappers: casts, into/from, `?`, Some/Ok payload projections, clones."""
+    while True:
+        if e[0] == "cast":
+            e = e[2]
+        elif e[0] in ("try", "await", "mutated"):
+            e = e[1]
+        elif e[0] == "field" and e[2] == "0" and e[1][0] == "variant" and e[1][2] in ("Some", "Ok"):
+            e = e[1][1]
+        elif e[0] == "variant" and e[2] in ("Some", "Ok"):
+            e = e[1]
+        elif e[0] == "call" and len(e[2]) == 1 and re.search(r"::(into|from|try_into|try_from)$", e[1] or ""):
+            e = e[2][0]
+        else:
+            return e
